@@ -91,6 +91,8 @@ func LoadWorld(repo string, overlay map[string][]byte, extraEnv []string) (*Worl
 		applyRoles() // the fields that surfaced may be renamed ones
 	}
 	nw, ov := normaliseHelpers(w, repo, cur, extraEnv)
+	// an assignment repeated verbatim right after itself (dupstmts.go)
+	nw, ov = dropRepeatedAssignments(nw, repo, ov, extraEnv)
 	// function literals that inlining left without a use (deadlits.go)
 	nw, ov = deadLiterals(nw, repo, ov, extraEnv)
 	// goroutine captures of write-once variables back to the parameters of the reference (captures.go)
